@@ -307,9 +307,113 @@ class CaseTimeout(BaseException):
     `except Exception` clauses must not swallow it (a hung call would otherwise be recorded as one that raised)."""
 
 
+# --- mutate-and-recall ---------------------------------------------------------------------------------------
+# A result that aliases state kept by the library (a memoised array, a scratch buffer re-used between calls, an
+# attribute of a long-lived object) is correct the first time and wrong after the caller - who owns what was returned
+# - has written into it.  Every `every`-th successful attempt() of a property that enabled it is therefore followed by:
+# snapshot the result, overwrite every writable array in it (those that do not overlap an argument), issue the
+# identical call again, and require the second result to equal the snapshot.  Only deterministic calls are driven
+# through attempt() by the properties that enable this.
+RECALL = {"every": 0, "monitor": None, "n": 0, "skip": (), "only": None}
+
+
+def enable_recall(monitor, every=5, skip=(), only=None):
+    RECALL.update(every=every, monitor=monitor, n=0, skip=tuple(skip), only=only)
+
+
+def _res_arrays(r, depth=0):
+    if isinstance(r, np.ndarray):
+        yield r
+    elif isinstance(r, (tuple, list)) and depth < 3 and len(r) <= 64:
+        for x in r:
+            yield from _res_arrays(x, depth + 1)
+    elif isinstance(r, dict) and depth < 3 and len(r) <= 64:
+        for x in r.values():
+            yield from _res_arrays(x, depth + 1)
+
+
+def _freeze(r, depth=0):
+    if isinstance(r, np.ndarray):
+        if r.dtype.hasobject:
+            return ("obj-array", r.shape)
+        return ("array", r.dtype.str if r.dtype.names is None else repr(r.dtype.descr), r.shape, r.tobytes())
+    if isinstance(r, (tuple, list)) and depth < 3 and len(r) <= 64:
+        return (type(r).__name__,) + tuple(_freeze(x, depth + 1) for x in r)
+    if isinstance(r, dict) and depth < 3 and len(r) <= 64:
+        return ("dict",) + tuple((repr(k), _freeze(v, depth + 1)) for k, v in r.items())
+    if isinstance(r, (bool, int, float, complex, str, bytes, type(None), np.generic)):
+        return ("scalar", type(r).__name__, repr(r))
+    return ("opaque", type(r).__name__)
+
+
+def _scribble(a):
+    """overwrite a with values that differ from what it holds"""
+    if a.dtype.names is not None:
+        for n in a.dtype.names:
+            _scribble(a[n])
+        return
+    k = a.dtype.kind
+    if k in "iu":
+        np.invert(a, out=a)
+    elif k == "b":
+        np.logical_not(a, out=a)
+    elif k in "fc":
+        a[...] = np.where(np.isfinite(a), a * -3 + 7.25, 1.5)
+    elif k in "SU":
+        a[...] = "Zq"[: max(1, a.dtype.itemsize // (4 if k == "U" else 1))]
+    elif k == "V":
+        a.view("u1")[...] = 0xA5 if a.flags.c_contiguous else 0
+
+
+def _recall(fn, a, k, r, label):
+    mon = RECALL["monitor"]
+    args = [x for _, x in _iter_arrays(a, k)]
+    self_ = getattr(fn, "__self__", None)
+    targets = []
+    for x in _res_arrays(r):
+        if not x.flags.writeable or x.size == 0 or x.dtype.hasobject:
+            continue
+        if any(np.may_share_memory(x, y) for y in args):
+            continue
+        targets.append(x)
+    if not targets:
+        COL.skipped(mon, "recall/no-private-array-in-result")
+        return r
+    snap = _freeze(r)
+    argsnap = [array_digest(y) for y in args]
+    for x in targets:
+        try:
+            _scribble(x)
+        except Exception:
+            pass
+    if [array_digest(y) for y in args] != argsnap:
+        # the result overlapped an argument after all (may_share_memory is bounds-based, this is the exact test)
+        COL.skipped(mon, "recall/result-overlaps-argument")
+        return r
+    try:
+        r2 = fn(*a, **k)
+    except Exception as e:
+        COL.violation(mon, "%s: the identical call repeated after the caller overwrote the first result raised %s: %s" % (
+            label, type(e).__name__, str(e)[:140]), {"label": label}, key="recall/" + label)
+        return r
+    if _freeze(r2) != snap:
+        COL.violation(mon, "%s: the identical call repeated after the caller overwrote the arrays of the first result returns "
+                      "something else (the result aliases state kept between calls)" % label, {"label": label}, key="recall/" + label)
+    else:
+        COL.ok(mon, ("recall", label, len(targets)))
+    return r2
+
+
 def attempt(fn, *a, **k):
     """Driver helper: call fn, return (result, exception)."""
     try:
-        return fn(*a, **k), None
+        r = fn(*a, **k)
     except Exception as e:  # noqa
         return None, e
+    if RECALL["every"] and r is not None:
+        label = getattr(fn, "_verif_label", None) or getattr(fn, "__qualname__", None) or getattr(fn, "__name__", "?")
+        if label not in RECALL["skip"] and "<lambda>" not in label and (RECALL["only"] is None or label in RECALL["only"]):
+            RECALL["n"] += 1
+            if RECALL["n"] % RECALL["every"] == 0:
+                r = _recall(fn, a, k, r, label)
+    return r, None
